@@ -434,7 +434,10 @@ BSITES = [("prop:arrow", "BProp"), ("prop:this", "BProp"), ("prop:dyn", "BProp")
 
 def type_script_and_probes(only=None):
     """only = (boundary site label, type, value kind): replay of one cell"""
-    L = ["class A {} class B extends A {} class C {} interface I {} class D implements I {} class S { public function __toString() { return \"s\"; } }"]
+    # (rt0..rt4: `return $this;` against the class-typed return hints A, I, ?A, ?I, A|string — B inherits A's copies)
+    RT = 'public function rt0(): A { return $this; } public function rt1(): I { return $this; } public function rt2(): ?A { return $this; } public function rt3(): ?I { return $this; } public function rt4(): A|string { return $this; }'
+    L = ["interface I {} class A { " + RT + " } class B extends A {} class C { " + RT + " } class D implements I { " + RT + " } class S { public function __toString() { return \"s\"; } }",
+         "class HO { public $u; public static $su; }"]
     probes = []
     for ti, (tn, _) in enumerate(TYPES):
         L.append("class K%d { public %s $p; public function setp($v) { $this->p = $v; return 1; } "
@@ -483,6 +486,37 @@ def type_script_and_probes(only=None):
             for rep in (0, 1):
                 L.append('try { %s echo "A\\n"; } catch (Throwable $e) { echo "D\\n"; }' % stmt)
                 probes.append({"site": "prop:arrow", "b": "BProp", "ty": tn, "tyc": tc, "val": "arr", "valc": "VArr", "via": via, "prop_type": tn})
+    # ---- `return $this;` against a class-typed return hint, from objects that are / are not of that type
+    for k, (tn, tc) in enumerate([("A", '(TClass "A")'), ("I", '(TClass "I")'), ("?A", '(TNullable (TClass "A"))'), ("?I", '(TNullable (TClass "I"))'),
+                                  ("A|string", '(TUnion (TClass "A") TString)')]):
+        for cn in ("A", "B", "C", "D"):
+            if only and only != ("return:method", tn, cn):
+                continue
+            for rep in (0, 1):
+                L.append('try { $z = new %s(); $z->rt%d(); echo "A\\n"; } catch (Throwable $e) { echo "D\\n"; }' % (cn, k))
+                probes.append({"site": "return:method", "b": "BReturnMethod", "ty": tn, "tyc": tc, "val": cn, "valc": '(VObj "%s")' % cn, "via": "return-this", "prop_type": "-"})
+    # ---- a PRIVATE / PROTECTED typed property written by class code through a reference other than $this
+    for ti, (tn, tc) in enumerate(TYPES):
+        L.append("class KP%d { private %s $pp; protected %s $pq; public function cp($o, $v) { $o->pp = $v; return 1; } public function cq($o, $v) { $o->pq = $v; return 1; } }" % (ti, tn, tn))
+    for ti, (tn, tc) in enumerate(TYPES):
+        for vn, vsrc, vc in VALUES:
+            for via, meth in (("private-other-object", "cp"), ("protected-other-object", "cq")):
+                if only and only != ("prop:arrow", tn, vn):
+                    continue
+                for rep in (0, 1):
+                    L.append('try { $ka = new KP%d(); $kb = new KP%d(); $ka->%s($kb, %s); echo "A\\n"; } catch (Throwable $e) { echo "D\\n"; }' % (ti, ti, meth, vsrc))
+                    probes.append({"site": "prop:arrow", "b": "BProp", "ty": tn, "tyc": tc, "val": vn, "valc": vc, "via": via, "prop_type": tn})
+    # ---- a typed BY-REFERENCE parameter given an object property, an array element, a static property
+    for ti, (tn, tc) in enumerate(TYPES):
+        for vn, vsrc, vc in VALUES:
+            for via, stmt in (("byref-property", "$ho = new HO(); $ho->u = %s; pb%d($ho->u);" % (vsrc, ti)),
+                              ("byref-element", "$ar = [%s]; pb%d($ar[0]);" % (vsrc, ti)),
+                              ("byref-static-property", "HO::$su = %s; pb%d(HO::$su);" % (vsrc, ti))):
+                if only and only != ("param:byref", tn, vn):
+                    continue
+                for rep in (0, 1):
+                    L.append('try { %s echo "A\\n"; } catch (Throwable $e) { echo "D\\n"; }' % stmt)
+                    probes.append({"site": "param:byref", "b": "BParam", "ty": tn, "tyc": tc, "val": vn, "valc": vc, "via": via, "prop_type": "-"})
     # ---- constructor-PROMOTED typed parameters (public / private), positional and by name
     for ti, (tn, tc) in enumerate(TYPES):
         for vn, vsrc, vc in VALUES:
